@@ -585,6 +585,18 @@ pub fn last_panic() -> String {
     LAST_PANIC.with(|p| p.borrow().clone())
 }
 
+/// whether a panic location ("file:line") lies in the code under test: /repo, or wherever the harness was pointed at
+/// (background runs build against a copy); everything that is neither the harness itself nor the toolchain / registry
+pub fn in_repository(loc: &str) -> bool {
+    loc.starts_with("/repo/")
+        || (loc.starts_with('/')
+            && !loc.starts_with(env!("CARGO_MANIFEST_DIR"))
+            && !loc.contains("/rustc/")
+            && !loc.contains("/rustlib/")
+            && !loc.contains("/.cargo/")
+            && (loc.contains("/matcher/src/") || loc.contains("/repo/src/")))
+}
+
 /// runs `f` catching panics; the error is "message @ file:line"
 pub fn caught<R>(f: impl FnOnce() -> R) -> Result<R, String> {
     catch_unwind(AssertUnwindSafe(f)).map_err(|_| last_panic())
@@ -640,7 +652,7 @@ pub fn guard_case(rep: &mut crate::report::Report, prop: &str, case_id: &str, f:
         Err(_) => {
             let msg = last_panic();
             let loc = msg.rsplit(" @ ").next().unwrap_or("").to_owned();
-            if loc.starts_with("/repo/") {
+            if crate::refm::in_repository(&loc) {
                 rep.violation(
                     prop,
                     "panic",
